@@ -25,6 +25,9 @@ GM_JUP = 1.2668653e17
 R_JUP = 7.1492e7
 M_JUP = GM_JUP / G_SI
 
+# temperature unit strings of a profile file -> (factor, offset) to kelvin; written down here, not taken from the package
+TEMP_UNITS = {'K': (1.0, 0.0), 'mK': (1e-3, 0.0), 'kK': (1e3, 0.0), 'deg_C': (1.0, 273.15), 'Celsius': (1.0, 273.15)}
+
 _h = {'ctx': None, 'installed': False}
 KINDS = ('Isothermal', 'NPoint', 'Guillot2010', 'Rodgers2000', 'TemperatureArray', 'TemperatureFile')
 
@@ -193,12 +196,14 @@ def controls(obj):
     elif name == 'TemperatureArray':
         t = list(np.asarray(d['tp_array'], dtype=float).ravel())
     else:   # TemperatureFile
-        if d.get('temp_units', 'K') != 'K' or d.get('press_units', 'Pa') not in PRESS_UNITS:
+        tu = d.get('temp_units', 'K')
+        if tu not in TEMP_UNITS or d.get('press_units', 'Pa') not in PRESS_UNITS:
             return None
         cols = [int(d['temp_col'])]
         rows = read_columns(d['filename'], d['skiprows'], cols,
                             d['delimiter'] if d.get('press_col') is not None else None)
-        t = [r[0] for r in rows]
+        scale, offset = TEMP_UNITS[tu]
+        t = [r[0] * scale + offset for r in rows]          # control temperatures in kelvin
     try:
         t = np.asarray(t, dtype=float)
     except Exception:
